@@ -138,21 +138,51 @@ def check_record_attrs_reach(res, r):
 
     cfg = CFG(r.node)
     n = 0
+
+    def reads_attrs_expr(v):
+        return any((isinstance(x, ast.Subscript) and isinstance(x.slice, ast.Constant) and x.slice.value == "attrs") or (isinstance(x, ast.Call) and getattr(x.func, "attr", None) == "get" and x.args and isinstance(x.args[0], ast.Constant) and x.args[0].value == "attrs") for x in ast.walk(v))
+
+    # helpers (nested in the reader or at module level) that read a record's "attrs" and return them
+    helpers = {}
+    for f in list(ast.walk(r.node)) + list(r.module.tree.body):
+        if isinstance(f, (ast.FunctionDef, ast.AsyncFunctionDef)) and f is not r.node and reads_attrs_expr(f) and any(isinstance(x, ast.Return) and x.value is not None for x in ast.walk(f)):
+            helpers[f.name] = f
+    for st in ast.walk(r.node):
+        if isinstance(st, ast.Assign) and len(st.targets) == 1 and isinstance(st.targets[0], ast.Name) and isinstance(st.value, ast.Lambda) and reads_attrs_expr(st.value.body):
+            helpers[st.targets[0].id] = st.value
+    # helpers of helpers (`_parse_attr_record` calling `_record_attrs`)
+    changed = True
+    while changed:
+        changed = False
+        for f in list(ast.walk(r.node)) + list(r.module.tree.body):
+            if isinstance(f, (ast.FunctionDef, ast.AsyncFunctionDef)) and f is not r.node and f.name not in helpers and any(isinstance(x, ast.Return) and x.value is not None for x in ast.walk(f)):
+                if any(isinstance(c, ast.Call) and isinstance(c.func, ast.Name) and c.func.id in helpers for c in ast.walk(f)):
+                    helpers[f.name] = f
+                    changed = True
     for lp in ast.walk(r.node):
         if not isinstance(lp, ast.For):
+            continue
+        if any(lp in [x for x in ast.walk(h)] for h in helpers.values()):
             continue
         inside = {id(x) for b in lp.body for x in ast.walk(b)}
         attr_names = set()
         binds = []
         for st in ast.walk(lp):
-            if isinstance(st, ast.Assign) and len(st.targets) == 1 and isinstance(st.targets[0], ast.Name) and id(st) in inside:
+            if isinstance(st, ast.Assign) and len(st.targets) == 1 and id(st) in inside:
                 v = st.value
-                reads_attrs = any((isinstance(x, ast.Subscript) and isinstance(x.slice, ast.Constant) and x.slice.value == "attrs") or (isinstance(x, ast.Call) and getattr(x.func, "attr", None) == "get" and x.args and isinstance(x.args[0], ast.Constant) and x.args[0].value == "attrs") for x in ast.walk(v))
-                if reads_attrs:
-                    attr_names.add(st.targets[0].id)
-                    binds.append(st)
+                t = st.targets[0]
+                via_helper = isinstance(v, ast.Call) and isinstance(v.func, ast.Name) and v.func.id in helpers
+                if isinstance(t, ast.Name) and (reads_attrs_expr(v) or via_helper):
+                    attr_names.add(t.id)
+                    binds.append((st, t.id))
+                elif isinstance(t, ast.Tuple) and via_helper:
+                    # `n, attr = _parse_attr_record(record, ...)`: every component must reach the network
+                    for e in t.elts:
+                        if isinstance(e, ast.Name):
+                            attr_names.add(e.id)
+                            binds.append((st, e.id))
         for name in sorted(attr_names):
-            mine = [b for b in binds if b.targets[0].id == name]
+            mine = [b for b, nm in binds if nm == name]
 
             def consumes(nd, name=name):
                 if not isinstance(nd, ast.AST) or any(nd is b for b in mine):
